@@ -20,32 +20,44 @@ pub fn check(name: &str, case: &Value, v: &Violation) -> bool {
         // KF-028: two variants of one union whose payloads differ only in how often they are
         // wrapped as nullable (Option<T> / Option<Option<T>>): typify flattens both to Option<T> and
         // emits `From<Option<T>>` twice
+        // (the compiler's message names the symptom exactly; structurally the case must have a union
+        // with at least two single-member object alternatives, i.e. newtype variants)
+        "variants_differ_only_in_nested_nullable" if v.detail.contains("conflicting implementations of trait `From<") => any_schema_node(case, &mut |o| {
+            o.get("oneOf").or_else(|| o.get("anyOf")).and_then(|b| b.as_array()).map(|bs| bs.iter().filter(|b| b.get("properties").and_then(|p| p.as_object()).map(|p| p.len() == 1).unwrap_or(false)).count() >= 2).unwrap_or(false)
+        }),
         "variants_differ_only_in_nested_nullable" => any_schema_node(case, &mut |o| {
             let Some(bs) = o.get("oneOf").or_else(|| o.get("anyOf")).and_then(|b| b.as_array()) else { return false };
-            fn strip(v: &Value, depth: &mut usize) -> Value {
+            // what typify renders alike: nested nullable wrappers collapse to one Option, a set of
+            // strings is written as a Vec
+            fn norm(v: &Value) -> Value {
                 if let Some(alts) = v.get("anyOf").or_else(|| v.get("oneOf")).and_then(|a| a.as_array()) {
-                    if alts.len() == 2 && alts.iter().filter(|a| a.get("type") == Some(&Value::String("null".into()))).count() == 1 {
-                        *depth += 1;
-                        let inner = alts.iter().find(|a| a.get("type") != Some(&Value::String("null".into()))).unwrap();
-                        return strip(inner, depth);
+                    let is_null = |a: &Value| a.get("type") == Some(&Value::String("null".into()));
+                    if alts.len() == 2 && alts.iter().filter(|a| is_null(a)).count() == 1 {
+                        let inner = norm(alts.iter().find(|a| !is_null(a)).unwrap());
+                        if inner.get("__opt").is_some() {
+                            return inner;
+                        }
+                        return serde_json::json!({"__opt": inner});
                     }
                 }
-                v.clone()
+                match v {
+                    Value::Object(m) => Value::Object(m.iter().filter(|(k, _)| !matches!(k.as_str(), "uniqueItems" | "minItems" | "maxItems" | "description" | "title")).map(|(k, x)| (k.clone(), norm(x))).collect()),
+                    Value::Array(a) => Value::Array(a.iter().map(norm).collect()),
+                    x => x.clone(),
+                }
             }
-            let mut seen: Vec<(Value, usize)> = vec![];
+            let mut seen: Vec<(Value, Value)> = vec![];
             for b in bs {
                 let Some(ps) = b.get("properties").and_then(|p| p.as_object()) else { continue };
                 if ps.len() != 1 {
                     continue;
                 }
-                let mut d = 0;
-                let core = strip(ps.values().next().unwrap(), &mut d);
-                if d >= 1 && seen.iter().any(|(c, e)| c == &core && *e != d) {
+                let raw = ps.values().next().unwrap().clone();
+                let n = norm(&raw);
+                if seen.iter().any(|(r, m)| m == &n && r != &raw) {
                     return true;
                 }
-                if d >= 1 {
-                    seen.push((core, d));
-                }
+                seen.push((raw, n));
             }
             false
         }),
